@@ -100,15 +100,41 @@ class Purity(object):
         self._local[f] = b
         return b
 
-    def roots(self, expr, f, _depth=0, _seen=None):
-        """Set of roots the value of expr may alias."""
+    def _dominating_rebind(self, name, f, at):
+        """The last plain assignment `name = e` that dominates node `at` in f (a direct child of
+        a block that encloses `at` and that precedes the child containing `at`), or None."""
+        if at is None:
+            return None
+        best = None
+        child = at
+        p = getattr(at, '_parent', None)
+        while p is not None:
+            for field in ('body', 'orelse', 'finalbody'):
+                seq = getattr(p, field, None)
+                if isinstance(seq, list) and child in seq:
+                    if isinstance(p, ast.Try) and field == 'body':
+                        pass
+                    for st in seq[:seq.index(child)]:
+                        if isinstance(st, ast.Assign) and any(isinstance(t, ast.Name) and t.id == name for t in st.targets):
+                            if best is None or (st.lineno, st.col_offset) > (best.lineno, best.col_offset):
+                                best = st
+            if p is f:
+                break
+            # a loop body: a later binding in the same loop may reach `at` on the next iteration;
+            # handled by the caller (bindings after the dominating one are kept)
+            child = p
+            p = getattr(p, '_parent', None)
+        return best
+
+    def roots(self, expr, f, _depth=0, _seen=None, at=None):
+        """Set of roots the value of expr may alias (at program point `at`, when given)."""
         _seen = _seen if _seen is not None else set()
         if isinstance(expr, tuple):
             kind = expr[0]
             if kind == 'freshmark':
                 return {'fresh'}
             if kind == 'elem':
-                r = self.roots(expr[1], f, _depth + 1, _seen)
+                r = self.roots(expr[1], f, _depth + 1, _seen, at=Model.enclosing_stmt(expr[1]) if isinstance(expr[1], ast.AST) else None)
                 # iterating a call result that yields fresh things (range, enumerate of fresh...)
                 return r
             if kind == 'aug':
@@ -125,18 +151,18 @@ class Purity(object):
         if isinstance(expr, ast.BoolOp):
             out = set()
             for v in expr.values:
-                out |= self.roots(v, f, _depth + 1, _seen)
+                out |= self.roots(v, f, _depth + 1, _seen, at=at)
             return out
         if isinstance(expr, ast.IfExp):
-            return self.roots(expr.body, f, _depth + 1, _seen) | self.roots(expr.orelse, f, _depth + 1, _seen)
+            return self.roots(expr.body, f, _depth + 1, _seen, at=at) | self.roots(expr.orelse, f, _depth + 1, _seen, at=at)
         if isinstance(expr, ast.Starred):
-            return self.roots(expr.value, f, _depth + 1, _seen)
+            return self.roots(expr.value, f, _depth + 1, _seen, at=at)
         if isinstance(expr, ast.Subscript):
             if isinstance(expr.slice, ast.Slice):
                 return {'fresh'}      # slicing copies (list, bytes, bytearray, str)
-            return self.roots(expr.value, f, _depth + 1, _seen)
+            return self.roots(expr.value, f, _depth + 1, _seen, at=at)
         if isinstance(expr, ast.Attribute):
-            return self.roots(expr.value, f, _depth + 1, _seen)
+            return self.roots(expr.value, f, _depth + 1, _seen, at=at)
         if isinstance(expr, ast.Await):
             return {'unknown'}
         if isinstance(expr, ast.Name):
@@ -146,21 +172,29 @@ class Purity(object):
             b = self.bindings(f)
             params = flow.param_names(f)
             out = set()
-            if nm in params:
+            dom = self._dominating_rebind(nm, f, at) if (at is not None and nm in b) else None
+            if nm in params and dom is None:
                 out.add('param:' + nm)
             if nm in b:
-                key = (id(f), nm)
+                key = (id(f), nm, id(dom))
                 if key in _seen:
                     return out or {'fresh'}
                 _seen.add(key)
                 for e in b[nm]:
-                    out |= self.roots(e, f, _depth + 1, _seen)
-                return out
+                    if dom is not None:
+                        ln = getattr(e, 'lineno', None) if not isinstance(e, tuple) else getattr(e[1], 'lineno', None) if len(e) > 1 else None
+                        if e is not dom.value and ln is not None and ln < dom.lineno:
+                            continue      # killed by the dominating re-binding
+                    out |= self.roots(e, f, _depth + 1, _seen, at=(Model.enclosing_stmt(e) if isinstance(e, ast.AST) else None))
+                return out or {'fresh'}
             if out:
                 return out
             r = f._mod.resolve_name(nm)
             if r is None:
-                return {'fresh'}        # builtin / external module name (None, True, len ...)
+                import builtins
+                if hasattr(builtins, nm) or nm in f._mod.imports:
+                    return {'fresh'}    # builtin / external module name (None, True, len ...)
+                return {'global:' + nm}  # free variable that is neither a builtin nor an import
             if isinstance(r, (ast.FunctionDef, ClassInfo, Module)):
                 return {'global:' + nm}
             return {'global:' + nm}
@@ -192,7 +226,7 @@ class Purity(object):
                     return out
                 # unresolved method of a builtin/external object
                 if fn.attr in ACCESSORS:
-                    return self.roots(fn.value, f, _depth + 1, _seen)
+                    return self.roots(fn.value, f, _depth + 1, _seen, at=at)
                 if fn.attr in ('copy', 'deepcopy'):
                     return {'fresh'}
                 r = f._mod.resolve(fn.value) if isinstance(fn.value, (ast.Name, ast.Attribute)) else None
@@ -200,7 +234,8 @@ class Purity(object):
             return {'fresh'}
         return {'unknown'}
 
-    def _ret_roots(self, callee, call, f, _depth, _seen):
+    def _ret_roots(self, callee, call, f, _depth, _seen, at=None):
+        at = at or Model.enclosing_stmt(call)
         """Callee may return an alias of self/params: map back to the call's receiver/args."""
         out = set()
         rr = self._callee_return_roots(callee)
@@ -209,13 +244,13 @@ class Purity(object):
                 out.add('fresh')
             elif r == 'self':
                 if isinstance(call.func, ast.Attribute):
-                    out |= self.roots(call.func.value, f, _depth + 1, _seen)
+                    out |= self.roots(call.func.value, f, _depth + 1, _seen, at=at)
                 else:
                     out.add('unknown')
             elif r.startswith('param:'):
                 a = self._arg_for(callee, call, r[6:])
                 if a is not None:
-                    out |= self.roots(a, f, _depth + 1, _seen)
+                    out |= self.roots(a, f, _depth + 1, _seen, at=at)
                 else:
                     out.add('fresh')
             else:
@@ -327,15 +362,15 @@ class Purity(object):
             return any(not isinstance(e, tuple) and self._evidently_container(e, f, _d + 1) for e in b)
         return False
 
-    def _effect_roots(self, f, target):
+    def _effect_roots(self, f, target, at=None):
         if isinstance(target, tuple) and target[0] == 'global':
             return {'global:' + x for x in target[1]}
         if isinstance(target, tuple) and target[0] == 'augname':
             nm = target[1]
-            r = self.roots(nm, f)
+            r = self.roots(nm, f, at=at)
             # a name that is only ever bound to fresh values: in-place on a fresh object
             return r
-        return self.roots(target, f)
+        return self.roots(target, f, at=at)
 
     # ------------------------------------------------------------ fixpoint
     def _solve(self):
@@ -364,7 +399,7 @@ class Purity(object):
                 s = self.summary[f]
                 before = (s['self'], len(s['params']), len(s['globals']))
                 for node, target, _d in self.direct_effects(f):
-                    for r in self._effect_roots(f, target):
+                    for r in self._effect_roots(f, target, at=Model.enclosing_stmt(node)):
                         self._add(s, r, '%s:%d %s' % (f._mod.rel, node.lineno, _d))
                 for call, ts in self.cg.sites.get(f, []):
                     for t in ts:
@@ -378,12 +413,12 @@ class Purity(object):
                             if isinstance(recv, ast.Call) and isinstance(recv.func, ast.Name) and recv.func.id == 'super':
                                 self._add(s, 'self', 'via ' + Model.qual(t))
                             else:
-                                for r in self.roots(recv, f):
+                                for r in self.roots(recv, f, at=Model.enclosing_stmt(call)):
                                     self._add(s, r, 'via ' + Model.qual(t))
                         for p in ts_sum['params']:
                             a = self._arg_for(t, call, p)
                             if a is not None:
-                                for r in self.roots(a, f):
+                                for r in self.roots(a, f, at=Model.enclosing_stmt(call)):
                                     self._add(s, r, 'via %s param %s' % (Model.qual(t), p))
                         for g in ts_sum['globals']:
                             s['globals'].add(g)
@@ -422,7 +457,7 @@ class Purity(object):
             return False
 
         for node, target, desc in self.direct_effects(f):
-            for r in sorted(self._effect_roots(f, target)):
+            for r in sorted(self._effect_roots(f, target, at=Model.enclosing_stmt(node))):
                 if bad(r):
                     out.append((node, '%s writes %s (%s)' % (Model.qual(f), _rname(r), desc)))
         for call, ts in self.cg.sites.get(f, []):
@@ -437,7 +472,7 @@ class Purity(object):
                     if isinstance(recv, ast.Call) and isinstance(recv.func, ast.Name) and recv.func.id == 'super':
                         rs = {'self'}
                     else:
-                        rs = self.roots(recv, f)
+                        rs = self.roots(recv, f, at=Model.enclosing_stmt(call))
                     for r in sorted(rs):
                         if bad(r):
                             out.append((call, '%s calls %s, which mutates its receiver, on %s' % (Model.qual(f), Model.qual(t), _rname(r))))
@@ -445,7 +480,7 @@ class Purity(object):
                     a = self._arg_for(t, call, p)
                     if a is None:
                         continue
-                    for r in sorted(self.roots(a, f)):
+                    for r in sorted(self.roots(a, f, at=Model.enclosing_stmt(call))):
                         if bad(r):
                             out.append((call, '%s passes %s (%s) to %s, which mutates parameter %s'
                                         % (Model.qual(f), ast.unparse(a), _rname(r), Model.qual(t), p)))
